@@ -663,7 +663,7 @@ func sampleSeq(c *core.Ctx, r *core.Rand) *seqCase {
 }
 
 func (Driver) Run(c *core.Ctx) {
-	n := int64(c.N(2500, 25000))
+	n := int64(c.N(5000, 25000))
 	for i := int64(0); i < n; i++ {
 		if !c.Want(i) {
 			continue
